@@ -289,4 +289,51 @@ class Programs(SubCheck):
         io_selftest(env)
 
 
-SUBCHECKS = [Programs()]
+class ProcessPrograms(SubCheck):
+    """The same programs with every client in its own OS process (forked): 'own' = each child opens its own Cache on the
+    directory, 'inherited' = the children use the Cache object the parent opened before the fork."""
+
+    name = 'scheduled_processes'
+
+    def examples(self, tier):
+        return 40 if tier == 'quick' else 1500
+
+    def strategy(self, tier):
+        return program_case(max_clients=3, max_calls=3).map(lambda c: dict(c, mode='inherited' if c['mode'] == 'shared' else 'own'))
+
+    def execute(self, case, env):
+        import diskcache
+
+        from ..procsched import run_scheduled_procs
+
+        kw = dict(timeout=0, disk_min_file_size=64, statistics=case.get('statistics', False), eviction_policy=case.get('policy', 'least-recently-stored'))
+
+        def setup(path):
+            base = diskcache.Cache(path, **kw)
+            for k, spec in case['init'].items():
+                base.set(k, mk(spec))
+            return base
+
+        def make_client(path, shared, i):
+            if case['mode'] == 'inherited' and i >= 0:
+                shared._sql  # the forked child touches the inherited object: it must get its own connection
+                return shared
+            c = diskcache.Cache(path, timeout=0)
+            c._sql
+            return c
+
+        calls, run = run_scheduled_procs(env, case['progs'], case['schedule'], setup, make_client, do_op, 'C05', final_ops=FINAL_OPS)
+        if run.limit_hit:
+            return {'nontrivial': False, 'classes': ['step-limit']}
+        mark_interleaved(calls, run.trace)
+        check_history(calls, tuple(sorted(case['init'].items())))
+        nontrivial = False
+        for a in calls:
+            for b in calls:
+                if a.cid < b.cid and a.client != b.client and a.client >= 0 and b.client >= 0 and op_key(a.op) is not None and op_key(a.op) == op_key(b.op):
+                    if (a.op[0] in WRITES or b.op[0] in WRITES) and overlaps(a, b) and (a.interleaved or b.interleaved):
+                        nontrivial = True
+        return {'nontrivial': nontrivial, 'classes': ['mode=' + case['mode'], 'clients=%d' % len(case['progs'])]}
+
+
+SUBCHECKS = [Programs(), ProcessPrograms()]
